@@ -2824,6 +2824,15 @@ class Recipe:
                                          f" by adding {round(amount_added, precision)} {unit}.")
                 else:  # PlateSlicer
                     def collapse(wells, plate):
+                        # A well is written as its row and column labels side by side ('A1', a run 'A1:A3') as long as
+                        # that names one well only: rows and columns both labelled '1', '2', ... '12' would write wells
+                        # 1:11 and 11:1 alike - there a well is written 'row:column' and a run 'first - last'.
+                        glued = {f"{row}{column}" for row in plate.row_names for column in plate.column_names}
+                        between, to = ("", ":") if len(glued) == plate.n_rows * plate.n_columns else (":", " - ")
+
+                        def named(well):
+                            return f"{plate.row_names[well[0]]}{between}{plate.column_names[well[1]]}"
+
                         result = []
                         row_run = col_run = None
                         start_well = end_well = wells[0]
@@ -2833,18 +2842,14 @@ class Recipe:
                                     end_well = well
                                 else:
                                     row_run = None
-                                    result.append(
-                                        f"{plate.row_names[start_well[0]]}{plate.column_names[start_well[1]]}:"
-                                        f"{plate.row_names[end_well[0]]}{plate.column_names[end_well[1]]}")
+                                    result.append(f"{named(start_well)}{to}{named(end_well)}")
                                     start_well = end_well = well
                             elif col_run is not None:
                                 if well[1] == col_run and well[0] == end_well[0] + 1:
                                     end_well = well
                                 else:
                                     col_run = None
-                                    result.append(
-                                        f"{plate.row_names[start_well[0]]}{plate.column_names[start_well[1]]}:"
-                                        f"{plate.row_names[end_well[0]]}{plate.column_names[end_well[1]]}")
+                                    result.append(f"{named(start_well)}{to}{named(end_well)}")
                                     start_well = end_well = well
                             elif well[0] == end_well[0] and well[1] == end_well[1] + 1:
                                 end_well = well
@@ -2853,13 +2858,12 @@ class Recipe:
                                 end_well = well
                                 col_run = well[1]
                             else:
-                                result.append(f"{plate.row_names[start_well[0]]}{plate.column_names[start_well[1]]}")
+                                result.append(named(start_well))
                                 start_well = end_well = well
                         if row_run is not None or col_run is not None:
-                            result.append(f"{plate.row_names[start_well[0]]}{plate.column_names[start_well[1]]}:"
-                                          f"{plate.row_names[end_well[0]]}{plate.column_names[end_well[1]]}")
+                            result.append(f"{named(start_well)}{to}{named(end_well)}")
                         if start_well == end_well:
-                            result.append(f"{plate.row_names[start_well[0]]}{plate.column_names[start_well[1]]}")
+                            result.append(named(start_well))
                         return result
 
                     amounts = dict()
